@@ -117,9 +117,9 @@ def main(argv=None):
                     validated = json.load(fh)
             except (OSError, ValueError):
                 pass
-            miss = [x["seed"] for x in st if x["applied"] and not x["flagged"] and "note" not in x]
+            miss = [x["seed"] for x in st if x["applied"] and "note" not in x and (x["flagged"] if x.get("neutral") else not x["flagged"])]
             if miss and validated.get("tree_key") == rep.tree_key.split("@")[0] and validated.get("repo") == extract.REPO:
-                print("engine failure: seeded change(s) %s apply to this (validated) tree but are no longer reported: the engine is blind, no verdict" % miss)
+                print("engine failure: self-test failed on this (validated) tree for %s (a seeded change is no longer reported, or a behaviour-preserving edit is): no verdict" % miss)
                 return 2
         except extract.EngineError as e:
             print("engine failure during self-test: %s" % e)
